@@ -39,7 +39,7 @@ def domain_set(draw, count=None, relation=None):
     n0 = draw(st.integers(2, 12))
     d0 = draw(gens.ascending_domain(n0, lo_gap=1e-2, hi_gap=1e2))
     lo0, hi0 = d0[0], d0[-1]
-    rel = draw(st.sampled_from(["overlap", "overlap", "overlap", "nested", "identical", "touching", "disjoint", "short"])) if relation is None else relation
+    rel = draw(st.sampled_from(["overlap", "overlap", "overlap", "nested", "identical", "touching", "disjoint", "short", "shifted"])) if relation is None else relation
     doms = [d0]
     for _ in range(k - 1):
         n = draw(st.integers(2, 12))
@@ -55,6 +55,9 @@ def domain_set(draw, count=None, relation=None):
             d = [shift + scale * v for v in d]
             if not (d[0] < lo0 and d[-1] > hi0):
                 d = [lo0 - 1.0] + [v for v in d if lo0 < v < hi0] + [hi0 + 1.0]
+        elif rel == "shifted":
+            # the same grid moved by a fraction of its finest step: same length, nearly the same values
+            d = [v + draw(st.floats(0.05, 0.95)) * float(np.min(np.diff(d0))) for v in d0]
         elif rel == "overlap":
             frac = draw(st.floats(-0.7, 0.7))
             shift = lo0 + frac * (hi0 - lo0)
@@ -274,8 +277,12 @@ def body_stack(case):
 
 @st.composite
 def capture_case(draw):
-    ds = draw(domain_set(count=2, relation=draw(st.sampled_from(["overlap", "overlap", "nested", "identical"]))))
+    ds = draw(domain_set(count=2, relation=draw(st.sampled_from(["overlap", "overlap", "nested", "identical", "shifted", "shifted"]))))
     fd, sd = ds["domains"]
+    if not ds.get("int_dtype"):
+        # unit of the domain axis: nm-like numbers, or the same axis in metres / micrometres / other units
+        u = draw(st.sampled_from([1.0, 1.0, 1e-9, 1e-6, 1e3]))
+        fd, sd = [float(v) * u for v in fd], [float(v) * u for v in sd]
     fd = sorted(fd)  # the estimator's own domain is documented as ascending
     nf = draw(st.integers(1, 4))
     ns = draw(st.integers(1, 4))
@@ -326,6 +333,13 @@ def body_capture(case):
         return ["half-integer-ratio-skipped"]
     check(np.all(np.abs(got - exp) <= 1e-8 * sc + 1e-300), "capture:value",
           f"capture on own domain {got.tolist()} != capture of interpolated signal and filters {exp.tolist()}")
+    # the same spectra registered as sources on their own domain: the system matrix is the same capture
+    with calling("ReceptorEstimator.register_system(domain=)"):
+        est.register_system(np.abs(S), domain=sd_a)
+        A_got = np.asarray(est.A, dtype=float)
+    if np.all(S >= 0):
+        check(A_got.shape == exp.T.shape and np.all(np.abs(A_got - exp.T) <= 1e-8 * sc.T + 1e-300), "capture:system-matrix",
+              f"system matrix of sources registered on their own domain {A_got.tolist()} != capture {exp.T.tolist()}")
     labs = [f"rel:{case['relation']}"]
     if not identical:
         labs.append("nt:interpolated-capture")
